@@ -1,5 +1,5 @@
 use anyhow::Result;
-use poulpy_core::{GLWEShift, ScratchTakeCore};
+use poulpy_core::{GLWEShift, ScratchTakeCore, layouts::LWEInfos};
 use poulpy_hal::layouts::{Backend, DataMut, DataRef, Module, Scratch};
 
 use crate::{CKKSInfos, checked_log_budget_sub, layouts::CKKSCiphertext};
@@ -47,8 +47,11 @@ pub(crate) trait CKKSRescaleOpsDefault<BE: Backend> {
         Self: GLWEShift<BE>,
         Scratch<BE>: ScratchTakeCore<BE>,
     {
-        let log_budget = checked_log_budget_sub("rescale", src.log_budget(), k)?;
-        self.glwe_lsh(dst, src, k, scratch);
+        // a destination smaller than the rescaled value additionally drops `offset` bits of budget,
+        // like every other out-of-place operation
+        let offset = (src.effective_k().saturating_sub(k)).saturating_sub(dst.max_k().as_usize());
+        let log_budget = checked_log_budget_sub("rescale", src.log_budget(), k + offset)?;
+        self.glwe_lsh(dst, src, k + offset, scratch);
         dst.meta = src.meta();
         dst.meta.log_budget = log_budget;
         Ok(())
